@@ -164,8 +164,9 @@ func H_C03_history() {
 				u.gate = 0x5
 				qers[k][0] = u
 				ies = append(ies, u.update())
-			case 4: // remove the downlink PDR and its FAR
-				ies = append(ies, ie.NewRemovePDR(ie.NewPDRID(2)), ie.NewRemoveFAR(ie.NewFARID(2)))
+			case 4: // remove one PDR (first or last of the session's list) and its FAR
+				id := 1 + vChoose("remove_which", 2)
+				ies = append(ies, ie.NewRemovePDR(ie.NewPDRID(uint16(id))), ie.NewRemoveFAR(ie.NewFARID(uint32(id))))
 			}
 			seq++
 			e.vSend(message.NewSessionModificationRequest(0, 0, seids[k], seq, 0, ies...))
